@@ -436,6 +436,9 @@ type cacheGen struct {
 	hist    []cacheOp // recent GnmiUpdate ops, source of same-timestamp variants
 	w       []int     // weights of the op kinds, see cacheProfiles
 	tsDense bool      // timestamps close together (many equal / out-of-order)
+	thr     int64     // future threshold of the scenario (0: none)
+	lastFut int64     // timestamp of the last future probe
+	follow  string    // target of a future probe just made: the next op re-probes it
 }
 
 // Weights per op kind: single, multi, atomic, delete, empty, unknown-target, Sync, Connect,
@@ -506,6 +509,24 @@ func (g *cacheGen) dataPath(target string, glob bool) (*pathDesc, pathDesc) {
 	return pre, path
 }
 
+// futureTs probes the future threshold: a timestamp just around "now + threshold", or one close to
+// the previous probe (which is what tells a rejected probe that left no trace from one that did).
+func (g *cacheGen) futureTs(now int64) int64 {
+	r := g.r
+	ts := now + g.thr - 1 + int64(r.Intn(4))
+	if g.lastFut > 0 && r.Intn(2) == 0 {
+		ts = g.lastFut - 1 + int64(r.Intn(int(g.thr)+3))
+	}
+	if ts < 1 {
+		ts = 1
+	}
+	g.lastFut = ts
+	if r.Intn(2) == 0 {
+		g.follow = "?" // resolved to the probing op's target by the caller
+	}
+	return ts
+}
+
 func (g *cacheGen) pickTarget() string { return g.targets[g.r.Intn(len(g.targets))] }
 
 // op returns the next operation. About one in eight is a variant of a recent notification: the same
@@ -514,8 +535,35 @@ func (g *cacheGen) pickTarget() string { return g.targets[g.r.Intn(len(g.targets
 // have to be told apart.
 func (g *cacheGen) op(now *int64) cacheOp {
 	r := g.r
-	if len(g.hist) > 0 && r.Intn(8) == 0 {
+	follow := g.follow
+	g.follow = ""
+	if len(g.hist) > 0 && (r.Intn(8) == 0 || follow != "") {
 		o := g.hist[r.Intn(len(g.hist))]
+		if follow != "" {
+			// right after a future probe: a notification of the same target close to the probe's timestamp
+			// (accepted only if the probe, rejected or not, moved the target's latest timestamp)
+			var same []cacheOp
+			for _, h := range g.hist {
+				if h.T == follow {
+					same = append(same, h)
+				}
+			}
+			if len(same) > 0 {
+				o = same[r.Intn(len(same))]
+			}
+			*now += int64(r.Intn(2))
+			o.Now = *now
+			o.Ups = append([]updDesc(nil), o.Ups...)
+			o.Dels = append([]pathDesc(nil), o.Dels...)
+			o.Ts = g.lastFut - 1 + int64(r.Intn(int(g.thr)+2))
+			if o.Ts < 1 {
+				o.Ts = 1
+			}
+			if len(o.Ups) > 0 && r.Intn(2) == 0 {
+				o.Ups[0].Val = randValFav(r, o.Ups[0].Val.Arm)
+			}
+			return o
+		}
 		*now += int64(r.Intn(2))
 		o.Now = *now
 		o.Ups = append([]updDesc(nil), o.Ups...)
@@ -524,6 +572,11 @@ func (g *cacheGen) op(now *int64) cacheOp {
 			o.Ts += int64(r.Intn(3)) - 1
 			if o.Ts < 1 {
 				o.Ts = 1
+			}
+		} else if g.thr > 0 && r.Intn(3) == 0 {
+			o.Ts = g.futureTs(*now)
+			if g.follow == "?" {
+				g.follow = o.T
 			}
 		}
 		switch k := r.Intn(5); {
@@ -541,6 +594,9 @@ func (g *cacheGen) op(now *int64) cacheOp {
 		return o
 	}
 	o := g.fresh(now)
+	if g.follow == "?" {
+		g.follow = o.T
+	}
 	if o.Op == "GnmiUpdate" && o.T != "" {
 		if len(g.hist) < 6 {
 			g.hist = append(g.hist, o)
@@ -563,6 +619,9 @@ func (g *cacheGen) fresh(now *int64) cacheOp {
 		if ts < 1 {
 			ts = 1
 		}
+	}
+	if g.thr > 0 && r.Intn(8) == 0 {
+		ts = g.futureTs(*now)
 	}
 	t := g.pickTarget()
 	// map the weighted kind onto the thresholds of the switch below
@@ -721,6 +780,7 @@ func cacheRandom(args []string) error {
 			g.fav = cacheArms[r.Intn(len(cacheArms))]
 		}
 		sc := cacheScenario{Sc: i, Thr: []int64{0, 0, 3, 10}[r.Intn(4)], Ed: r.Intn(3) > 0, Targets: all[:1+r.Intn(len(all))]}
+		g.thr = sc.Thr
 		d := &cacheDrv{w: ss.ws[i%len(ss.ws)]}
 		d.start(sc)
 		known := map[string]bool{}
